@@ -55,10 +55,11 @@ MUTS_V3 = [
     "trunc-1",
     "trunc-half",
     "report",  # Report PDU keeping the message id of its request
+    "report+rid0",  # ... not echoing the request-id (RFC 3412: 0 when the request could not be read)
     "report+msgid+1",
     "report+msgid=r*",
 ]
-MUTS_V3_REDUCED = ["rid+1", "msgid=r*", "user-other", "trunc-1", "report", "report+msgid=r*"]
+MUTS_V3_REDUCED = ["rid+1", "msgid=r*", "user-other", "trunc-1", "report", "report+rid0", "report+msgid=r*"]
 
 
 def muts_for(cfg, reduced=False):
@@ -115,7 +116,9 @@ def owners(d):
     if m is None:
         return rid_owner, mid_owner
     body = m[len("report+") :] if m.startswith("report+") else m
-    if body.startswith("rid=r"):
+    if body == "rid0":
+        rid_owner = None
+    elif body.startswith("rid=r"):
         rid_owner = int(body[5:])
     elif body.startswith("rid"):
         rid_owner = None
@@ -289,7 +292,9 @@ class Exec:
             return rid, mid
         body = m[len("report+") :] if m.startswith("report+") else m
         adj = {"rid+1": 1, "rid-1": -1, "rid+2^32": 1 << 32, "rid-2^32": -(1 << 32), "rid-2^31": -(1 << 31)}
-        if body in adj:
+        if body == "rid0":
+            rid = 0
+        elif body in adj:
             rid += adj[body]
         elif body == "rid|2^31":
             rid |= 1 << 31
